@@ -11,7 +11,7 @@ Local Open Scope R_scope.
 Definition within (tol x y : R) : Prop := Rabs (x - y) <= tol + tol * Rabs y.
 
 Lemma close_R tol x y : @close R NumR tol x y = true <-> within tol x y.
-Proof. unfold close, niscloseb, within. rewrite !nabs_R. numR. apply Rleb_true. Qed.
+Proof. unfold close, niscloseb, within. rewrite !NumR.nabs_R. numR. apply Rleb_true. Qed.
 
 Lemma within_refl0 tol : 0 <= tol -> within tol 0 0.
 Proof. intros H. unfold within. rewrite Rminus_0_r, Rabs_R0. lra. Qed.
@@ -82,7 +82,7 @@ Definition checked_ok (tol : Q) (bl : list Q) (a : nat)
   (forall o, (o < nO)%nat ->
      within t (untab (mapQ1 pv) o) (Zm mr b a o) /\ within t (lookup (mapQd pd) o) (Zm mr b a o)) /\
   within t (Q2R rw)
-         (sumf nS (fun s => sumf nS (fun ns => b s * P (base mr) s a ns * MDP.Rw (base mr) s a ns))).
+         (sumf nS (fun s => sumf nS (fun ns => b s * MDP.P (base mr) s a ns * MDP.Rw (base mr) s a ns))).
 
 Theorem main_checked tol bl a ed ev nag pd pv bn rw c :
   @wfpb Q NumQ mq = true ->
@@ -94,26 +94,32 @@ Proof.
   intros Hwf Hbel Ha Ht Hchk. rewrite check_ba_transfer in Hchk.
   apply wf_of_Q in Hwf. apply belief_of_Q in Hbel.
   unfold check_ba in Hchk. cbv zeta in Hchk.
-  injection Hchk as H1 H2 H3 H4 H5 _ _ H8.
+  match type of Hchk with [?c1; ?c2; ?c3; ?c4; ?c5; ?c6; ?c7; ?c8] = _ =>
+    assert (H1 : c1 = true) by congruence; assert (H2 : c2 = true) by congruence;
+    assert (H3 : c3 = true) by congruence; assert (H4 : c4 = true) by congruence;
+    assert (H5 : c5 = true) by congruence; assert (H8 : c8 = true) by congruence
+  end. clear Hchk.
   set (b := untab (mapQ1 bl)) in *. set (t := Q2R tol) in *.
-  assert (HnS : nS (base mr) = nS) by reflexivity.
-  assert (HnA : nA (base mr) = nA) by reflexivity.
+  assert (HnS : MDP.nS (base mr) = nS) by reflexivity.
+  assert (HnA : MDP.nA (base mr) = nA) by reflexivity.
   assert (HnO : POMDP.nO mr = nO) by reflexivity.
   unfold checked_ok. fold b t. cbv zeta. split; [|split].
   - intros o ns Ho Hns.
-    assert (Hob : forall ns, (ns < nS (base mr))%nat -> 0 <= Ob mr a ns o).
+    assert (Hob : forall ns, (ns < MDP.nS (base mr))%nat -> 0 <= Ob mr a ns o).
     { intros k Hk. apply (Ob_nonneg mr Hwf); auto. }
-    pose proof (forall2b_seq _ _ _ _ [] H1 o ltac:(rewrite HnO; lia)) as D1. simpl in D1.
-    pose proof (forall2b_seq _ _ _ _ [] H2 o ltac:(rewrite HnO; lia)) as D2. simpl in D2.
-    pose proof (forall2b_seq _ _ _ _ [] H3 o ltac:(rewrite HnO; lia)) as D3. simpl in D3.
+    pose proof (forall2b_seq _ _ _ _ [] H1 o ltac:(change (POMDP.nO mr) with nO; lia)) as D1.
+    cbv beta in D1; change (0 + o)%nat with o in D1.
+    pose proof (forall2b_seq _ _ _ _ [] H2 o ltac:(change (POMDP.nO mr) with nO; lia)) as D2.
+    cbv beta in D2; change (0 + o)%nat with o in D2.
+    pose proof (forall2b_seq _ _ _ _ [] H3 o ltac:(change (POMDP.nO mr) with nO; lia)) as D3.
+    cbv beta in D3; change (0 + o)%nat with o in D3.
     destruct (estimator_bayes_obs mr Hwf b Hbel a Ha o Hob) as (_ & Hpos & Hzero).
     split.
     + intros Hz. destruct Hpos as (Hv & _ & _); auto. destruct (Hv ns Hns) as (E1 & E2 & E3 & _).
-      rewrite <- E1 at 1. rewrite <- E2 at 2. rewrite <- E3.
-      repeat split.
-      * now apply close_list_untab.
-      * now apply close_dict_lookup.
-      * now apply close_list_untab.
+      split; [|split].
+      * rewrite <- E1. now apply close_list_untab.
+      * rewrite <- E2. now apply close_dict_lookup.
+      * rewrite <- E3. now apply close_list_untab.
     + intros Hz. destruct (Hzero Hz) as (E0 & Hv). destruct (Hv ns Hns) as (E1 & E3).
       repeat split.
       * apply within_zero. rewrite <- E1. now apply close_list_untab.
